@@ -69,6 +69,28 @@ Proof.
   apply existsb_eqb_In. exact T.
 Qed.
 
+(** small-context arithmetic facts (kept apart: with the whole proof context the division equations make lia slow) *)
+Lemma coprime30_res n : coprime30 n -> n mod 30 = 1 \/ 7 <= n mod 30.
+Proof. unfold coprime30, cop30. cbn [In]. lia. Qed.
+
+Lemma mi_byteof low m : low mod 30 = 0 -> low + 6 < m -> (m mod 30 = 1 \/ 7 <= m mod 30) ->
+  (m - (low + 6)) / 30 = byteof low m.
+Proof. intros H1 H2 H3. unfold byteof. lia. Qed.
+
+Lemma quotient_le p low q' : 0 < p -> low + 7 <= p * q' -> (low + 6) / p + 1 <= q'.
+Proof.
+  intros Hp Hge. destruct (N.lt_ge_cases q' ((low + 6) / p + 1)) as [Hlt|]; [exfalso|assumption].
+  assert (H1 : q' <= (low + 6) / p) by lia.
+  assert (H2 : p * q' <= p * ((low + 6) / p)) by (apply N.mul_le_mono_l; exact H1).
+  pose proof (N.mul_div_le (low + 6) p ltac:(lia)) as H3. lia.
+Qed.
+
+Lemma least_gap Q f q' : (forall d, d < f -> ~ coprime30 (Q + d)) -> Q <= q' -> coprime30 q' -> Q + f <= q'.
+Proof.
+  intros H HQ Hc. destruct (N.lt_ge_cases q' (Q + f)) as [Hlt|]; [exfalso|assumption].
+  apply (H (q' - Q)); [lia|]. replace (Q + (q' - Q)) with q' by lia. exact Hc.
+Qed.
+
 (** the state stored by addSievingPrime is correct and minimal for the segment based at low *)
 Theorem asp30_state_ok stop p low mi wi :
   prime p -> 7 <= p -> p < 2 ^ 32 -> low mod 30 = 0 -> stop <= MAX64 -> low + 6 <= MAX64 ->
@@ -77,12 +99,13 @@ Theorem asp30_state_ok stop p low mi wi :
 Proof.
   intros Hp H7 H32 Hl Hstop Hlow H. unfold addSievingPrime30 in H.
   destruct init_factor_bounds as (B30 & _ & _ & _ & M30 & _).
-  pose proof (addSievingPrime_no_wrap _ _ _ 6 stop p low mi wi B30 ltac:(lia) ltac:(lia) H32 Hstop Hlow H) as NW. cbv zeta in NW.
-  assert (Hl6 : low + 6 < U64) by (unfold U64, MAX64 in *; lia).
+  assert (Hb6 : 6 <= 10) by (clear; lia). assert (Hp1 : 1 <= p) by (clear - H7; lia).
+  pose proof (addSievingPrime_no_wrap _ _ _ 6 stop p low mi wi B30 Hb6 Hp1 H32 Hstop Hlow H) as NW. cbv zeta in NW.
+  assert (Hl6 : low + 6 < U64) by (clear - Hlow; unfold U64, MAX64 in *; lia).
   pose proof (asp_wi _ _ _ _ _ _ _ _ Hl6 H) as Hwi. rewrite M30 in *.
   set (Q := N.max p ((low + 6) / p + 1)) in *.
   pose proof wheel30Init_sweep as T. rewrite forallb_forall in T.
-  assert (HQ : Q mod 30 < N.of_nat 30) by (change (N.of_nat 30) with 30; apply N.mod_lt; lia).
+  assert (HQ : Q mod 30 < N.of_nat 30) by (change (N.of_nat 30) with 30; apply N.mod_lt; clear; lia).
   specialize (T _ (In_Nseq 30 _ HQ)). cbv zeta in T.
   set (e := nth (N.to_nat (Q mod 30)) wheel30Init (0, 0)) in *.
   apply andb_true_iff in T. destruct T as [T T4]. apply andb_true_iff in T. destruct T as [T T3].
@@ -92,40 +115,31 @@ Proof.
   destruct (residue_class p Hcp) as (ri & Hri & Hres & Hsp).
   set (q := Q + fst e) in *.
   assert (Hqm : q mod 30 = nthd cop30 (snd e)).
-  { rewrite T3. unfold q. rewrite N.add_mod_idemp_l by lia. reflexivity. }
+  { rewrite T3. unfold q. rewrite N.add_mod_idemp_l by (clear; lia). reflexivity. }
   assert (Hcq : coprime30 q).
   { unfold coprime30. rewrite Hqm.
     assert (T8 : forallb (fun k => existsb (N.eqb (nthd cop30 k)) cop30) (Nseq 8) = true) by (vm_compute; reflexivity).
     rewrite forallb_forall in T8. apply existsb_eqb_In. apply T8. apply In_Nseq. exact T2. }
+  assert (Hgap : forall d, d < fst e -> ~ coprime30 (Q + d)).
+  { intros d Hd Hc. rewrite forallb_forall in T4.
+    assert (Hin : In d (filter (fun d => d <? fst e) (Nseq 7))).
+    { apply filter_In. split; [apply In_Nseq; change (N.of_nat 7) with 7; clear - Hd T1; lia|apply N.ltb_lt; exact Hd]. }
+    specialize (T4 _ Hin). apply negb_true_iff in T4. unfold coprime30 in Hc.
+    rewrite <- N.add_mod_idemp_l in Hc by (clear; lia). apply existsb_eqb_In in Hc. congruence. }
   exists ri, (snd e), q. split.
   - rewrite Hwi. pose proof wheel30_offsets_sweep as O. rewrite forallb_forall in O. specialize (O ri (In_Nseq 8 _ Hri)).
     apply N.eqb_eq in O. unfold nthd in O at 1. rewrite Hres in O. rewrite O. reflexivity.
   - split; [symmetry; exact Hsp|]. split; [|exact Nstop].
     cbn [w_ok]. rewrite <- Hsp.
     pose proof (coprime30_prod p q Hcp Hcq) as Hcm.
-    assert (Hm7 : low + 7 <= p * q) by lia.
+    assert (Hm7 : low + 7 <= p * q) by (clear - Nlow; lia).
     split.
     + (* Inv *)
       split; [exact Hri|]. split; [exact T2|]. split; [exact Hqm|].
       rewrite <- Hsp. pose proof (position (p * q) low Hl Hcm Hm7) as P.
       replace mi with (byteof low (p * q)); [exact P|].
-      rewrite Nmi. unfold byteof. destruct (offb_range (p * q) Hcm) as [Ho Hom].
-      assert (Hc' : (p * q) mod 30 = 1 \/ 7 <= (p * q) mod 30) by (unfold coprime30, cop30 in Hcm; cbn [In] in Hcm; lia).
-      set (m := p * q) in *. clearbody m. lia.
-    + split; [exact Hp|]. split; [exact H7|]. split; [unfold q; lia|].
-      intros q' Hq' Hc' Hge.
-      assert (HQq : Q <= q').
-      { unfold Q. apply N.max_lub; [exact Hq'|].
-        destruct (N.lt_ge_cases q' ((low + 6) / p + 1)) as [Hlt|]; [exfalso|assumption].
-        assert (q' <= (low + 6) / p) by lia. assert (p * q' <= p * ((low + 6) / p)) by nia.
-        pose proof (N.mul_div_le (low + 6) p ltac:(lia)). lia. }
-      destruct (N.lt_ge_cases q' q) as [Hlt|]; [exfalso|assumption].
-      rewrite forallb_forall in T4.
-      assert (Hd : In (q' - Q) (filter (fun d => d <? fst e) (Nseq 7))).
-      { apply filter_In. split; [apply In_Nseq; change (N.of_nat 7) with 7; unfold q in Hlt; lia|apply N.ltb_lt; unfold q in Hlt; lia]. }
-      specialize (T4 _ Hd). apply negb_true_iff in T4.
-      assert (In ((Q mod 30 + (q' - Q)) mod 30) cop30).
-      { replace ((Q mod 30 + (q' - Q)) mod 30) with (q' mod 30); [exact Hc'|].
-        rewrite N.add_mod_idemp_l by lia. f_equal. lia. }
-      apply existsb_eqb_In in H0. congruence.
+      rewrite Nmi. symmetry. apply mi_byteof; [exact Hl|exact Nlow|apply coprime30_res; exact Hcm].
+    + split; [exact Hp|]. split; [exact H7|]. split; [unfold q; clear - NpQ; lia|].
+      intros q' Hq' Hc' Hge. unfold q. apply least_gap; [exact Hgap| |exact Hc'].
+      unfold Q. apply N.max_lub; [exact Hq'|]. apply quotient_le; [clear - H7; lia|exact Hge].
 Qed.
